@@ -523,6 +523,46 @@ def c12(report, rng, tier, findings):
     results = pmap(rule_impl, [(c, {'caching': (False, True), 'evals': 2}) for c in cases])
     lines = run_driver([rule_sexp(c) for c in cases])
     judge_rules(report, cases, results, lines, findings, 'C12', nontriv)
+    # second stream, OUTSIDE the branch-closed programs: an alternative on the root's chain whose condition mentions only
+    # ONE of the two variables its conclusion uses.  The reference (every assignment of the base variables; the first
+    # branch that fires) is well defined; the implementation loses conclusions there (known finding C12-F1: false outputs
+    # of the base are de-duplicated on the variables of the alternative's CONDITION, and a conclusion variable the path
+    # did not bind is given one value only).  Cache off, one evaluation; every deviation in this stream is that finding.
+    fnd = {f['id']: f for f in findings.get('findings', []) if f.get('status', 'open') == 'open'}
+    nc = []
+    for i in range(max(20, n // 8)):
+        cfg, base = base_dataset(rng, 2, n_objs=(2, 4))
+        ids = [v[0] for v in base['vars']]
+        g = gen.CondGen(rng, cfg, ids)
+        root = {'tag': 0, 'cond': closed_cond(rng, g, ids), 'kids': []}
+        g.var_ids = [rng.choice(ids)]
+        alt = {'tag': 1, 'cond': [g.atom()], 'kids': []}
+        g.var_ids = ids
+        root['kids'].append(('alt', alt))
+        if rng.random() < 0.4:
+            alt['kids'].append(('alt', {'tag': 2, 'cond': closed_cond(rng, g, ids), 'kids': []}))
+        nc.append({'id': f'n{i}', 'classes': base['classes'], 'objs': base['objs'], 'vars': base['vars'],
+                   'args': [('var', v) for v in ids], 'rule': root})
+    res_nc = pmap(rule_impl, [(c, {'caching': (False,), 'evals': 1}) for c in nc])
+    lines_nc = run_driver([rule_sexp(c) for c in nc])
+    for case, res, line in zip(nc, res_nc, lines_nc):
+        if 'spec_exc' in res:
+            continue
+        drv = parse_rule_line(line)
+        if sorted(drv['lspec']) != sorted(res['spec']):
+            raise HarnessError(f"Python RDR reference and Lean reference disagree on {case['id']}: {res['spec']} vs "
+                               f"{drv['lspec']} :: {rule_sexp(case)}")
+        report.evaluations += 1
+        report.count('alternative_condition_mentions_one_of_two_variables')
+        cfg_ = res['impl'].get('off', {})
+        if 'exc' in cfg_ or any(sorted(rows) != sorted(res['spec']) for rows in cfg_.get('outs', [])):
+            if 'C12-F1' in fnd:
+                report.known['C12-F1'] = report.known.get('C12-F1', 0) + 1
+                report.known_text['C12-F1'] = fnd['C12-F1']['what']
+            else:
+                what = 'conclusions differ from the ripple-down-rules reference (alternative over one of two variables, cache off)'
+                report.violations.append((what, {'what': what, 'case': case, 'case_sexp': rule_sexp(case),
+                                                 'expected': sorted(res['spec']), 'observed': cfg_.get('outs') or cfg_.get('exc')}))
     return ['EqlModel.Props.C12', 'EqlModel.Props.C12Rows', 'EqlModel.Lemmas.RuleBuild', 'EqlModel.RulesExt'], [
         "branch-closed conditions: each branch's conditions mention the variables its conclusion uses",
         "one Add conclusion per branch; next_rule is outside the property",
